@@ -89,7 +89,7 @@ def main():
         files = {'x.as': text, 'case.txt': '%s %s\nexpected (%s):\n%s\njava (%s):\n%s\n%s' % (sd, lv, cls, out[-1500:], p.cause, p.out[-1500:].decode(errors='replace'), p.err[-800:].decode(errors='replace'))}
         if p.timeout: ctx.violation('hang:java', '%s %s' % (sd, lv), files); continue
         if p.out.decode(errors='replace') != out or xc != cls:
-            ctx.violation('java-differs:%s:%s' % (sd, lv) if sd.startswith('C12-pool') else 'java-differs', '%s %s: java gives %r/%s, expected %r/%s' % (sd, lv, p.out[-150:], xc, out[-150:], cls), files)
+            ctx.violation('java-differs', '%s %s: java gives %r/%s, expected %r/%s' % (sd, lv, p.out[-150:], xc, out[-150:], cls), files)
     if os.environ.get('VF_WRITE_CANARIES'):
         with open(cp_, 'w') as fh:
             for (i, lv, name) in supported:
